@@ -31,7 +31,7 @@ SOURCES = [("h_timers", "C02"), ("h_tcp", "C19"), ("h_udp", "C08"), ("h_conn", "
 
 RULE = ("programs come from the case generators of ten harnesses (timer programs; TCP transfers with scripted drops/delays, reuse and pcap capture; UDP histories; "
         "connect/accept/NAT scenarios; registry histories; resolver histories; queue worlds; HTTP-server, SOCKS and HTTP-proxy sessions) and are executed in environments A "
-        "(given order, ASLR on, malloc fill 0x00), B (reverse order, ASLR off via setarch -R, malloc fill 0xAB, heap/stack scribbling before every case), C (fresh process "
+        "(given order, ASLR on, malloc fill 0x00), B (reverse order, ASLR off via setarch -R, malloc fill 0xAB, heap/stack scribbling before every case), F (given order, malloc fill 0x5A - fresh memory reads as large positive integers -, other scribble byte), C (fresh process "
         "per case, subset)%s; a program is non-trivial iff its trace has >= 20 tap/handler events; distinct = distinct case text")
 
 
@@ -57,6 +57,13 @@ def envA():
 def envB():
     e = dict(os.environ)
     e["ASAN_OPTIONS"] = "detect_leaks=0:malloc_fill_byte=171:max_malloc_fill_size=16777216:exitcode=77"
+    return e
+
+
+def envF():
+    # 0x5A: fresh memory reads as large *positive* integers, true booleans, non-null pointers (0xAB reads as negative integers)
+    e = dict(os.environ)
+    e["ASAN_OPTIONS"] = "detect_leaks=0:malloc_fill_byte=90:max_malloc_fill_size=16777216:exitcode=77"
     return e
 
 
@@ -131,6 +138,17 @@ def compare_one(harness, hprop, exe, files, work, tag, thorough=False, plain_exe
         if a != b:
             problems.append((i, "%s case %s: trace differs between environment A (in order, ASLR, fill 0x00) and B (reverse order, no ASLR, fill 0xAB, scribbled heap/stack): %s"
                              % (harness, os.path.basename(f), first_diff(a, b))))
+    # F: given order, ASLR on, third fill pattern, different scribble byte
+    tF = os.path.join(work, tag + "-F")
+    rcF, outF = batch(exe, hprop, files, tF, work, envF(), scribble=165)
+    if rcF != 0:
+        problems.append((-1, "%s: batch run failed (env F rc=%s): %s" % (harness, rcF, outF[-600:])))
+        return problems, {}, 0
+    for i, f in enumerate(files):
+        ff = read_trace(tF, f)
+        if ff is not None and f in traces and ff != traces[f]:
+            problems.append((i, "%s case %s: trace differs between environment A (malloc fill 0x00) and F (malloc fill 0x5A, scribbled heap/stack): %s"
+                             % (harness, os.path.basename(f), first_diff(traces[f], ff))))
     # C: fresh process per case (subset)
     step = 3 if thorough else 10
     for i, f in enumerate(files):
@@ -255,7 +273,7 @@ def main(prop, argv, seed):
     ev = dict(property_id=prop, tier=tier, seed=seed, level="exploration",
               coverage=dict(evaluations=evaluations, distinct_nontrivial=len(nontrivial),
                             rule=RULE % ("; thorough adds D (the baseline's -O2 -DNDEBUG build under MALLOC_PERTURB_=85 and 170, opposite orders) and E (valgrind on a sample)" if thorough else ""),
-                            samples=samples, labels=labels, environments=["A", "B", "C"] + (["D", "E"] if thorough else []),
+                            samples=samples, labels=labels, environments=["A", "B", "F", "C"] + (["D", "E"] if thorough else []),
                             executions=evaluations * (2 + (1.0 / 3 if thorough else 0.1) + (2 if thorough else 0))),
               assumptions=["the harness itself is deterministic (checked by the self-test: environment A twice)",
                            "dependence on date, locale, CPU or kernel cannot be varied inside the sandbox and is not exercised",
